@@ -4,9 +4,11 @@
   See tools/props/c07.py for what is proved, what is partial and what is checked by the differential engine only.
 -/
 import Hw.Io.SyntheticLemmas
+import Hw.Io.SyntheticWidths
 import Hw.Io.SyntheticFaithful
 import Hw.Io.SyntheticTopo
 import Hw.Io.SyntheticDump
+import Hw.Io.SyntheticDumpLemmas
 namespace Hw.Props.C07
 open Hw Hw.Syn Hw.Topo
 
@@ -47,6 +49,52 @@ theorem C07_F04_memmove_bounds (levels : List Syn.Level) (count : Nat) (h : coun
     · simp only [List.mem_cons, List.not_mem_nil, or_false] at hi; omega
     · have := List.mem_range.1 (List.mem_of_mem_drop hi); omega
   · intro i hi; cases hi
+
+/-! ### no wrap, no division by zero -/
+
+/-- F67 (fixed by c92c5cc): the parser rejects a description whose number of objects does not fit an unsigned long, so in
+every accepted result the total widths are exact natural-number products: the root has width 1, every level's width is the
+width of the level above times its arity, all are positive, below 2^64 and non-decreasing with the depth -/
+theorem C07_widths_no_wrap (s : Bytes) (p : Parsed) (h : parse s = .ok p) :
+    (lvAt p.levels 0).width = 1 ∧
+    (∀ j, j + 1 < p.levels.length → (lvAt p.levels (j + 1)).width = (lvAt p.levels j).width * (lvAt p.levels j).arity) ∧
+    (∀ j, j < p.levels.length → 1 ≤ (lvAt p.levels j).width ∧ (lvAt p.levels j).width < 2 ^ 64) ∧
+    (∀ i j, i ≤ j → j < p.levels.length → (lvAt p.levels i).width ≤ (lvAt p.levels j).width) := by
+  obtain ⟨T, hw, h0⟩ := parse_widths s p h
+  refine ⟨h0, hw.chain, ?_, hw.mono⟩
+  intro j hj
+  have h1 := hw.le j hj
+  have h2 := hw.tlt
+  exact ⟨hw.pos j hj, by unfold u64 at h2; omega⟩
+
+/-- **no division by zero**, for every input string (`total / totalwidth` and `totalwidth / totalwidth` in
+hwloc_synthetic_process_indexes always divide by a positive width) -/
+theorem C07_no_divzero (s : Bytes) (e : Err) (log : Log) (h : parse s = .error (e, log)) : e ≠ .divzero := by
+  rcases parse_err_kinds s e log h with rfl | rfl <;> simp
+
+/-- every failing run of the parser is a rejection (EINVAL) or the failed assertion `assert(nbs)` -/
+theorem C07_error_kinds (s : Bytes) (e : Err) (log : Log) (h : parse s = .error (e, log)) : e = .einval ∨ e = .abort :=
+  parse_err_kinds s e log h
+
+/-- with positive non-decreasing widths, `assert(nb)` and `assert(step)` of the type interleaving never fail (for totals
+that can be allocated: `Hw.Syn.allocLimit`); the only assertion left is `assert(nbs)` -/
+theorem C07_type_interleave_asserts_hold (levels : List Syn.Level) (ix : Idx) (total : Nat) (e : Err)
+    (hne : 1 ≤ levels.length) (hlast : (lvAt levels (levels.length - 1)).arity = 0)
+    (hpos : ∀ j, j < levels.length → 1 ≤ (lvAt levels j).width)
+    (hmono : ∀ i j, i ≤ j → j < levels.length → (lvAt levels i).width ≤ (lvAt levels j).width)
+    (h : (processIndexes levels ix total).1 = .err e) : e = .abort :=
+  processIndexes_err levels ix total e hne hlast hpos hmono h
+
+/-- OPEN DEFECT (reported): the product of the `nb` of an `x*y` interleaving is accumulated modulo 2^64; four loops of
+65536 make it 0 and `assert(nbs)` aborts -/
+theorem C07_nbs_wrap_abort_witness :
+    (match parse (str "PU:4(indexes=1*65536:1*65536:1*65536:1*65536)") with | .error (e, _) => some e | .ok _ => none) = some .abort := by
+  decide
+
+/-- the former F67 description is rejected -/
+theorem C07_F67_rejected :
+    (match parse (str "Package:2147483648 Die:2147483648 Core:4(indexes=Core) PU:1") with | .error (e, _) => some e | .ok _ => none) = some .einval := by
+  decide
 
 /-! ### index arrays -/
 
@@ -162,6 +210,21 @@ theorem C07_build_wf_bounded : ∀ t ∈ wfFamily, WF (toDump t) := by
 
 example : wfFamily.length = 88 := by decide
 
+/-! ### build_wf — the clauses proved for EVERY abstract topology -/
+
+/-- for every `t` (Regular or not): the objects of `toDump t` are numbered by their position (WF clause `id-is-position`:
+the arithmetic DFS numbering `nid`/`memId`/`numaId` is the emission order), the object count is right and positive, the
+root is object 0, a Machine at depth 0 without parent (clauses `nobjs`, `root-is-machine`), and the level table has one
+entry per normal depth plus the six special levels, the type-depth table one entry per type (part of `levels-listed`,
+`type-depth-inverse`) -/
+theorem C07_dump_structure (t : Topo) :
+    (toDump t).objs.map (·.id) = List.range (toDump t).nobjs ∧
+    (∀ o ∈ (toDump t).objs, ((toDump t).objs[o.id]?).map (·.id) = some o.id) ∧
+    ((toDump t).root = 0 ∧ 0 < (toDump t).nobjs ∧ (toDump t).objs.length = (toDump t).nobjs ∧
+      ∃ r, (toDump t).objs[0]? = some r ∧ r.type = tMACHINE ∧ r.depth = 0 ∧ r.parent = -1 ∧ r.id = 0) ∧
+    ((toDump t).levels.length = (toDump t).depth + 6 ∧ (toDump t).typeDepths.length = tMAX) :=
+  ⟨toDump_ids t, toDump_id_is_position t, toDump_root t, toDump_levels_listed t⟩
+
 /-! ### non-vacuity and regression witnesses (the former defect inputs, now ordinary cases) -/
 
 /-- 125 x "Group:1" + "PU:2" (former F04): accepted, the implicit NUMA level makes 128 levels -/
@@ -215,6 +278,7 @@ example : Accepts exLs where
   numa := by decide
   core := by decide
   depth := by decide
+  fits := by decide
 example : printDesc exLs = str "Package:2 L2Cache:3 Core:1 PU:2" ∧
     expectedTypes exLs = [tMACHINE, tNUMA, tPACKAGE, tL2, tCORE, tPU] ∧ expectedArities exLs = [1, 2, 3, 1, 2, 0] := by decide
 
